@@ -9,6 +9,7 @@ import (
 	"os"
 	"os/exec"
 	"path/filepath"
+	"regexp"
 	"runtime"
 	"sort"
 	"strconv"
@@ -17,6 +18,8 @@ import (
 	"sync/atomic"
 	"time"
 )
+
+var digitsRe = regexp.MustCompile(`[0-9]+`)
 
 var registry = map[string]*Prop{}
 
@@ -87,7 +90,7 @@ func WorkerMain(p *Prop, tier string, seed int64, shard, n int, outPath, tracePa
 		f, err := os.OpenFile(tracePath, os.O_CREATE|os.O_WRONLY|os.O_TRUNC, 0644)
 		if err != nil {
 			fmt.Fprintln(os.Stderr, "trace open:", err)
-			return 2
+			return 3
 		}
 		trace = f
 		defer f.Close()
@@ -162,7 +165,7 @@ func WorkerMain(p *Prop, tier string, seed int64, shard, n int, outPath, tracePa
 	}
 	if pi := Catch(func() { p.Gen(g) }); pi != nil {
 		fmt.Fprintf(os.Stderr, "HARNESS ERROR: generator panicked: %s\n%s\n", pi.Value, pi.Stack)
-		return 2
+		return 3
 	}
 	writeOut(true, g, idx)
 	return 0
@@ -392,6 +395,16 @@ func DriverMain(p *Prop, tier string) int {
 				}
 			}
 		}
+		if (r.sum == nil || !r.sum.Done) && trace && r.code != 3 {
+			if _, e := ioutil.ReadFile(tr); e != nil || fileEmpty(tr) {
+				if r.sum == nil || len(r.sum.Violations) == 0 {
+					s := &Summary{Counters: map[string]int64{}, Violations: map[string]*ViolationRec{}}
+					sig := "crash-while-enumerating:" + crashKind(r.log)
+					s.Violations[sig] = &ViolationRec{Signature: sig, Detail: "worker process died before executing a case (inside the real code driven by the case generator):\n" + r.log, Count: 1}
+					r.sum = s
+				}
+			}
+		}
 		if (r.sum == nil || !r.sum.Done) && trace {
 			// pin the culprit: last traced case
 			if b, e := ioutil.ReadFile(tr); e == nil {
@@ -415,7 +428,7 @@ func DriverMain(p *Prop, tier string) int {
 			defer wg.Done()
 			r := runWorker(k, false)
 			if r.sum == nil || !r.sum.Done {
-				if r.code == 2 {
+				if r.code == 3 {
 					results[k] = r
 					return
 				}
@@ -442,7 +455,7 @@ func DriverMain(p *Prop, tier string) int {
 			harnessErr = true
 			continue
 		}
-		if r.code == 2 {
+		if r.code == 3 {
 			fmt.Fprintf(os.Stderr, "HARNESS ERROR: worker %d: %s\n", k, r.log)
 			harnessErr = true
 		}
@@ -561,8 +574,19 @@ func DriverMain(p *Prop, tier string) int {
 	return 0
 }
 
+func fileEmpty(p string) bool {
+	st, err := os.Stat(p)
+	return err != nil || st.Size() == 0
+}
+
 func crashKind(log string) string {
 	for _, l := range strings.Split(log, "\n") {
+		if strings.HasPrefix(l, "WARNING: DATA RACE") {
+			return "data race reported by the race detector"
+		}
+		if strings.HasPrefix(l, "panic: ") {
+			return strings.TrimSpace(digitsRe.ReplaceAllString(l, "N"))
+		}
 		if strings.HasPrefix(l, "fatal error:") || strings.HasPrefix(l, "unexpected fault") || strings.HasPrefix(l, "SIG") {
 			return strings.TrimSpace(l)
 		}
